@@ -115,20 +115,20 @@ theorem provide_cancelled_may_block_counterexample :
   refine ⟨_, rfl, ?_⟩
   decide
 
-/-- With a cancel signal handler a stop request never panics … -/
-theorem provide_cancelled_never_panics_partial (s : SyncState) (truthy : Bool) (site : String) :
-    syncStep true s (.provideCancelled truthy) ≠ .panic site :=
-  Arca.Proofs.PluginSync.provideCancelled_not_panic s truthy site
+/-- No call into the step and no move of its goroutines panics; in particular a stop request against a step WITHOUT
+    cancel signal handler (which used to dereference the nil handler in `cancelStep`, fixed in 691f1ef) only cancels
+    the context. -/
+theorem provide_cancelled_never_panics (handler : Bool) (s : SyncState) (a : Act) (site : String) :
+    syncStep handler s a ≠ .panic site :=
+  Arca.Proofs.PluginSync.never_panics handler s a site
 
-/-- … without one it DOES, as soon as the step is in stage `running`: `cancelStep` logs "could not cancel step" and
-    then dereferences the nil handler (`cancelSignal.DataSchema()`). -/
-theorem provide_cancelled_without_handler_panics_counterexample :
-    ∃ s, execute false syncInit
+/-- what the stop request does instead, once the step runs: the context is cancelled, nothing is sent -/
+theorem provide_cancelled_without_handler_cancels_context :
+    ∃ s s', execute false syncInit
         [.runBegin, .provideDeploy, .recvDeploy, .deployOk, .provideEnabling, .recvEnabled true, .provideStarting true, .startOk]
         = some s ∧
-      syncStep false s (.provideCancelled true) = .panic "cancelStep: nil cancel signal handler dereferenced" := by
-  refine ⟨_, rfl, ?_⟩
-  decide
+      syncStep false s (.provideCancelled true) = .next s' ∧ s'.ctxDone = true ∧ s'.cancelSends = 0 := by
+  refine ⟨_, _, rfl, rfl, ?_, ?_⟩ <;> decide
 
 /-- Once an input was accepted, every later attempt to provide it is refused — in every state reachable afterwards. -/
 theorem second_input_refused (handler : Bool) (s s1 s2 : SyncState) (_hr : Reachable handler s) :
@@ -203,23 +203,46 @@ end Plugin
 section Foreach
 open Arca.Model.ForeachStep
 
-/-- every path of the foreach provider except the one that ends while waiting for the `execute` input is legal -/
-theorem foreach_traces_legal_partial :
-    ∀ p ∈ foreachPaths, p.1 ≠ "closed-waiting-execute" → foreachAccepts p.2 = true := by
+/-- Every trace the foreach provider can emit is a legal life story — with the lifecycle's transition relation widened
+    by the one undeclared transition `execute -> closed` (`foreachUndeclaredEdges`). -/
+theorem foreach_traces_legal_partial : ∀ p ∈ foreachPaths, foreachAcceptsRelaxed p.2 = true :=
+  Arca.Proofs.PluginTraces.foreach_paths_accepted
+
+/-- Against the lifecycle exactly as declared the property is FALSE: closed while waiting for the items the step goes
+    `execute -> closed` (`runOnInput` -> `closedEarly`), and `closed` is declared as a next stage of `enabling` only. -/
+theorem foreach_traces_legal_counterexample : ∃ p ∈ foreachPaths, foreachAccepts p.2 = false :=
+  ⟨("closed-waiting-execute", fpath [enterExecute, closedEarly "outputs" true]), by decide,
+   Arca.Proofs.PluginTraces.foreach_strict_rejects_closed_waiting_execute⟩
+
+/-- `execute -> closed` is the ONLY transition the foreach provider makes without it being declared -/
+theorem foreach_only_undeclared_transition :
+    ∀ p ∈ foreachPaths, ∀ e ∈ Arca.Model.PluginStep.LifecycleSpec.transitions p.2,
+      e ∈ foreachEdges ∨ e = ("execute", "closed") := by
   decide
 
-/-- FALSE in general: closed while waiting for the `execute` input, `runOnInput` returns without reporting any
-    completion (F10b). -/
-theorem foreach_no_completion_counterexample :
-    ∃ p ∈ foreachPaths, (p.2.filter Arca.Model.PluginStep.LifecycleSpec.isComplete).length = 0 ∧ foreachAccepts p.2 = false :=
-  ⟨("closed-waiting-execute", fpath [enterExecute]), by decide, by decide, by decide⟩
+/-- exactly one completion is reported on EVERY path of the foreach `run()` (F10b fixed in 2e2fefe) -/
+theorem foreach_exactly_one_completion :
+    ∀ p ∈ foreachPaths, (p.2.filter Arca.Model.PluginStep.LifecycleSpec.isComplete).length = 1 := by
+  decide
 
-/-- providing input to the foreach step never blocks … -/
+/-- the same on the skeleton: whenever `run()` has ended it has reported exactly one completion, never more before -/
+theorem foreach_run_ends_with_one_completion (s : SyncState) (hr : Reachable s) :
+    s.completions ≤ 1 ∧ (s.pc = .done → s.completions = 1) := by
+  have h := (Arca.Proofs.PluginForeach.reachable_inv s hr).compl
+  constructor
+  · rw [h]; split <;> decide
+  · intro hd
+    rw [h, hd]
+    decide
+
+/-- Providing input to the foreach step never blocks and never sends on a closed channel: `Close` closes
+    `executeInput` under `r.lock` (c9cdc4d), which a provider holds from its `closed` check to its send. -/
 theorem foreach_provide_never_blocks (s : SyncState) (hr : Reachable s) :
-    syncStep s .provideEnabling ≠ .wouldBlock ∧ syncStep s .provideExecuteSend ≠ .wouldBlock ∧
-    ∀ v, syncStep s (.provideExecuteBegin v) ≠ .wouldBlock := by
+    (syncStep s .provideEnabling ≠ .wouldBlock ∧ syncStep s .provideExecuteSend ≠ .wouldBlock ∧
+      ∀ v, syncStep s (.provideExecuteBegin v) ≠ .wouldBlock) ∧
+    (∀ a site, syncStep s a ≠ .panic site) := by
   have hi := Arca.Proofs.PluginForeach.reachable_inv s hr
-  refine ⟨?_, ?_, ?_⟩
+  refine ⟨⟨?_, ?_, ?_⟩, ?_⟩
   · simp only [syncStep]
     repeat' split
     all_goals first | simp | skip
@@ -236,39 +259,30 @@ theorem foreach_provide_never_blocks (s : SyncState) (hr : Reachable s) :
     simp only [syncStep]
     repeat' split
     all_goals simp
+  · intro a site
+    cases a <;> simp only [syncStep, runMove] <;> (repeat' split) <;> (try simp)
+    -- provideExecuteSend with the channel closed: excluded by the invariant
+    rename_i hp hcl
+    have h2 := (hi.pending (by simpa using hp)).2.2
+    simp [h2] at hcl
 
-/-- … but it may PANIC: `Close` closes `executeInput` between the `closed` check and the send (F10c). -/
-theorem foreach_send_on_closed_channel_counterexample :
-    ∃ s, execute syncInit
-        [.runBegin, .provideEnabling, .recvEnabled true, .provideExecuteBegin true, .closeCall, .ctxAtExecute, .runExit,
-         .closeReturnFirst] = some s ∧
-      syncStep s .provideExecuteSend = .panic "send on closed channel: r.executeInput" := by
+/-- the close of `executeInput` waits for a provider that is between its check and its send -/
+theorem foreach_close_waits_for_pending_provider (s : SyncState) (hp : s.provPending = true) :
+    syncStep s .closeReturnFirst = .disabled := by
+  simp [syncStep, hp]
+
+/-- No notification starts after a Close/ForceClose call has returned, and the wait group counts `run()` from the
+    moment `Start` returns (`rs.wg.Add(1)` before `go rs.run()`, c9cdc4d) — in EVERY reachable state. -/
+theorem foreach_no_notification_after_close_returns (s : SyncState) (hr : Reachable s) :
+    s.lateNotif = false ∧ (0 < s.closeReturned → s.pc = .done) ∧ s.wg = (if s.pc = .done then 0 else 1) :=
+  ⟨(Arca.Proofs.PluginForeach.reachable_inv s hr).late, (Arca.Proofs.PluginForeach.reachable_inv s hr).returned,
+   (Arca.Proofs.PluginForeach.reachable_inv s hr).wg⟩
+
+/-- a Close right after Start cannot return before `run()` has run -/
+theorem foreach_close_right_after_start_waits :
+    ∃ s, execute syncInit [.closeCall] = some s ∧ syncStep s .closeReturnFirst = .disabled := by
   refine ⟨_, rfl, ?_⟩
   decide
-
-/-- FALSE: `r.wg.Add(1)` is executed inside `run()`, so a Close that wins the race against the start of the goroutine
-    finds the counter at zero and returns; `run()` then starts and reports its whole life story afterwards (F10e). -/
-theorem foreach_close_may_return_before_run_counterexample :
-    ∃ s, execute syncInit [.closeCall, .closeReturnFirst, .runBegin, .ctxAtEnable] = some s ∧
-      s.closeReturned = 1 ∧ s.lateNotif = true := by
-  refine ⟨_, rfl, ?_, ?_⟩ <;> decide
-
-/-- Under the hypothesis that `run()` has registered itself before the first close call, no notification starts after
-    a close call has returned, and the wait group counts `run()`. -/
-theorem foreach_no_notification_after_close_returns_partial (s : SyncState) (hr : ReachableRegistered s) :
-    s.lateNotif = false ∧ (0 < s.closeReturned → s.pc = .done) ∧ s.wg = (if s.pc = .done then 0 else 1) :=
-  ⟨(Arca.Proofs.PluginForeach.registered_reginv s hr).late, (Arca.Proofs.PluginForeach.registered_reginv s hr).returned,
-   (Arca.Proofs.PluginForeach.registered_reginv s hr).wg⟩
-
-/-- at most one completion is ever reported … -/
-theorem foreach_at_most_one_completion (s : SyncState) (hr : Reachable s) : s.completions ≤ 1 :=
-  (Arca.Proofs.PluginForeach.reachable_inv s hr).compl1
-
-/-- … but `run()` can end with none (F10b, on the skeleton) -/
-theorem foreach_run_may_end_without_completion_counterexample :
-    ∃ s, execute syncInit [.runBegin, .provideEnabling, .recvEnabled true, .closeCall, .ctxAtExecute, .runExit] = some s ∧
-      s.pc = .done ∧ s.completions = 0 := by
-  refine ⟨_, rfl, ?_, ?_⟩ <;> decide
 
 /-- closing is idempotent -/
 theorem foreach_close_idempotent (s : SyncState) (hc : s.closed = true) :
